@@ -71,7 +71,8 @@ func solve(file string, timeoutS int, all bool) SolveResult {
 			}
 			for _, l := range strings.Split(string(out), "\n") {
 				// a malformed query must never count as an answer
-				if strings.Contains(l, "(error ") && !strings.Contains(l, "model is not available") {
+				// (get-model) after "unsat" is answered with an error by z3 4.8 and cvc5: benign
+				if strings.Contains(l, "(error ") && !strings.Contains(l, "model is not available") && !strings.Contains(l, "Cannot get model") {
 					first = "error"
 				}
 			}
